@@ -193,6 +193,7 @@ pub struct Run {
     stop: AtomicBool,
     recheck: AtomicBool,
     conformance_literals: usize,
+    model_vectors: Mutex<Option<std::thread::JoinHandle<Option<usize>>>>,
     extra: Mutex<Map<String, Value>>,
 }
 
@@ -293,6 +294,10 @@ impl Run {
             Ok(n) => n,
             Err(_) => machinery_exit("model conformance suite failed"),
         };
+        // ... and ~38000 expectations computed by an independent implementation (Python's decimal / fractions /
+        // struct, see tools/gen_model_vectors.py); replayed on a side thread while the exploration runs, joined
+        // before any verdict is printed
+        let vectors = std::thread::spawn(|| catch_unwind(spec::vectors::run).ok());
         let run = Run {
             prop,
             tier,
@@ -316,6 +321,7 @@ impl Run {
             stop: AtomicBool::new(false),
             recheck: AtomicBool::new(false),
             conformance_literals: lits,
+            model_vectors: Mutex::new(Some(vectors)),
             extra: Mutex::new(Map::new()),
         };
         (run, inv)
@@ -627,6 +633,11 @@ impl Run {
         cov.insert("caps_hit".into(), json!(caps));
         cov.insert("violation_examples".into(), Value::Array(viol_json.into_iter().take(20).collect()));
         cov.insert("model_conformance_literals_checked".into(), json!(self.conformance_literals));
+        let nvec = match self.model_vectors.lock().unwrap().take().map(|h| h.join()) {
+            Some(Ok(Some(n))) => n,
+            _ => machinery_exit("the model disagrees with the independent expectation vectors (mc/spec/src/vectors.txt)"),
+        };
+        cov.insert("model_independent_vectors_checked".into(), json!(nvec));
         cov.insert("explanation".into(), json!("every explored state/transition is an execution of the real implementation compared with the reference model; exploration is bounded-exhaustive over the stated finite domain"));
         for (k, v) in self.extra.lock().unwrap().iter() {
             cov.insert(k.clone(), v.clone());
